@@ -36,6 +36,9 @@ ZONES = [None, "UTC", "+05:30", "Australia/Brisbane"]
 def cases(draw, tier):
     big = tier == "thorough" and draw(st.integers(0, 19)) == 0
     n = draw(st.integers(2, 2000 if big else 60))
+    if not big and draw(st.integers(0, 14)) == 0:
+        # record lengths at and around powers of two
+        n = draw(st.sampled_from([127, 128, 129, 255, 256, 257]))
     regime = draw(st.sampled_from(["uniform", "lattice", "gaps"]))
     if regime == "uniform":
         steps = [draw(st.integers(1, 4000)) for _ in range(n - 1)]
